@@ -501,6 +501,42 @@ def rule7_destructor_protocol(ctx, fl):
     ctx.floor('C16.7', 3)
 
 
+def rule9_attr(ctx, fl):
+    ctx.doc('C16.9', 'thread attribute translation (pthread_attr_to_myth): a NULL attribute object yields NULL without being read; '
+            'otherwise the MassiveThreads attribute is first initialised, then receives the detach state and the stack address/size of '
+            'the pthread attribute object it was given, and is returned')
+    m = ctx.ssa(WRAPF, flavour=fl)
+    f = ctx.need_fn(m, 'pthread_attr_to_myth')
+    p_, m_ = f.params[0]['id'], f.params[1]['id']
+    nts = lib.null_tests(f, p_)
+    ini = call_sites(f, 'myth_thread_attr_init_body')
+    gd = [c for c in f.calls() if c.callee in ('pthread_attr_getdetachstate', 'real_pthread_attr_getdetachstate', '__real_pthread_attr_getdetachstate')]
+    gs = [c for c in f.calls() if c.callee in ('pthread_attr_getstack', 'real_pthread_attr_getstack', '__real_pthread_attr_getstack')]
+    ctx.ob('C16.9', 'attr[%s]: NULL test of the pthread attribute' % fl, bool(nts), 'if (!p) return 0', loc=f.loc)
+    uses = ini + gd + gs
+    ctx.ob('C16.9', 'attr[%s]: the attribute object is read only when it is not NULL' % fl, bool(uses) and bool(nts) and
+           all(any(f.edge_dominates(br.block.id, nn, c) for br, nn, nl in nts) for c in uses),
+           'pthread_create(.., NULL, ..) is the common case: it must not dereference the attribute pointer', loc=f.loc)
+    for val, anchor in ret_cases(f):
+        isnull = isinstance(val, dict) and (val.get('null') or val.get('c') == 0)
+        if isnull:
+            ctx.ob('C16.9', 'attr[%s]: NULL in, NULL out' % fl, any(f.edge_dominates(br.block.id, nl, anchor) for br, nn, nl in nts),
+                   'default attributes stay default', loc=anchor.loc)
+        else:
+            ctx.ob('C16.9', 'attr[%s]: returns the translated object' % fl, same_value(f, val, m_) and
+                   any(f.edge_dominates(br.block.id, nn, anchor) for br, nn, nl in nts), 'return m', loc=anchor.loc)
+            for what, calls, flds in (('detach state', gd, ['myth_thread_attr.detachstate']),
+                                      ('stack address and size', gs, ['myth_thread_attr.stackaddr', 'myth_thread_attr.stacksize'])):
+                ok = len(calls) == 1 and same_value(f, calls[0].args[0], p_) and \
+                    [f.ap(a_).fields[-1:] for a_ in calls[0].args[1:]] == [[x] for x in flds] and \
+                    all(same_value(f, f.ap(a_).root, m_) for a_ in calls[0].args[1:]) and \
+                    not reaches_point(f, f.entry_inst(), anchor, blocked=calls, include_start=True) and \
+                    len(ini) == 1 and f.dominates_f(ini[0], calls[0])
+                ctx.ob('C16.9', 'attr[%s]: %s taken from the pthread attribute object' % (fl, what), ok,
+                       'after myth_thread_attr_init the getter fills the corresponding field(s) of m on every path to the return', loc=f.loc)
+    ctx.floor('C16.9', 6)
+
+
 def rule8_real(ctx):
     ctx.doc('C16.8', 'myth_real.c, every real_<f> in every flavour: it reaches the system function of the same name - through '
             'real_function_table.<f> (preloading), __real_<f> (link-time wrapping) or <f> itself (vanilla) - passing its own '
@@ -567,6 +603,7 @@ def run(ctx):
         rule2_static_init(ctx, fl, v)
         rule6_results(ctx, fl, v, ws)
         rule7_destructor_protocol(ctx, fl)
+        rule9_attr(ctx, fl)
     ctx.unit = 'real'
     rule8_real(ctx)
     ctx.unit = 'link'
@@ -577,6 +614,10 @@ def run(ctx):
 WRAP = 'src/myth_wrap_pthread.c'
 OPTS = 'src/myth-ld.opts'
 MUTANTS = [
+    {'name': 'attribute translation skips the stack attributes (sweep M0686)', 'expect': 'C16.9',
+     'edits': [(WRAP, "    r = pthread_attr_getstack(p, &m->stackaddr, &m->stacksize);\n    assert(r == 0);\n    return m;", "    return m;")]},
+    {'name': 'attribute translation dereferences a NULL attribute (sweep M0687)', 'expect': 'C16.9',
+     'edits': [(WRAP, "  if (!p) {\n    return 0;\n  } else {\n    int _ = myth_thread_attr_init_body(m);", "  if (!(!p)) {\n    return 0;\n  } else {\n    int _ = myth_thread_attr_init_body(m);")]},
     {'name': 'pthread_mutex_init leaves the magic word unset (sweep M0402)', 'expect': 'C16.2',
      'edits': [('src/myth_sync_func.h', "  mutex->magic = myth_mutex_magic_no;\n  return 0;", "  return 0;")]},
     {'name': 'losers of the conversion wait while the magic word is NOT initializing (sweep M0338)', 'expect': 'C16.2',
